@@ -94,6 +94,7 @@ func optimize(d *DFA) {
 			}
 			newStates[group].Accept = newStates[group].Accept || s.Accept
 			newStates[group].NonGreedy = newStates[group].NonGreedy || s.NonGreedy
+			newStates[group].NonGreedyAccept = newStates[group].NonGreedyAccept || s.NonGreedyAccept
 			newStates[group].NFAStates = append(
 				newStates[group].NFAStates,
 				s.NFAStates...)
@@ -174,6 +175,11 @@ func subPartition(p *partitions, group int) {
 		if first.Accept {
 			assert.True(s.Accept)
 			if !acceptingNFAStates(first).Equal(acceptingNFAStates(s)) {
+				move.Add(s)
+				return
+			}
+			// A state that must stop at once cannot stand for one that goes on.
+			if first.NonGreedyAccept != s.NonGreedyAccept {
 				move.Add(s)
 				return
 			}
